@@ -42,7 +42,8 @@ CHECKS = {
         specs='CliS.tla, Cli.tla, Trace_Cli.tla',
         text='Size rule as invariants of the run model (NeverLarger, SizeRule) checked exhaustively; TLC judges real runs of every enumerated '
              'configuration with shrinking/equal/growing/empty targets in all output modes incl. stdin, with and without the override, plus '
-             'byte-level sources whose UTF-8 re-encoding grows, each also behind five kinds of #! line, and #! lines alone.',
+             'byte-level sources whose UTF-8 re-encoding grows, each also behind five kinds of #! line, #! lines alone, '
+             'and each under every one of the 19 flags on its own (API reference computed from the keyword arguments the tool itself passed).',
         note='Byte lengths measured on the real files/streams; API result from an in-process minify() call; in-process entry point.',
         technique='TLA+ (TLC) model checking of the CLI run model + trace validation of recorded CLI runs',
         design_ref='3.7, 5 (C14)'),
@@ -52,17 +53,19 @@ CHECKS = {
              'exhaustively for <=3 (quick) / <=4 (thorough) files; every TLC-enumerated 2-file configuration and a seeded sample of 3-file '
              'ones is materialised (nested dirs, symlinked dir, look-alike suffixes) and run through the real entry point with injected '
              'read/write faults; TLC judges post-state, open events, visiting order and the exit status of both ways of starting the tool '
-             '(python -m: return value of main() dropped; console script: sys.exit(main())): a run that reports success has no failing target.',
+             '(python -m: return value of main() dropped; console script: sys.exit(main())): a run that reports success has no failing target. '
+             'Path-argument spellings outside the enumeration are added by hand: --output naming the source itself (directly / through a symlink) and targets the arguments reach '
+             'twice (same file named twice, directory + file inside it, directory twice) with a file class whose minification is not idempotent.',
         note='Faults injected through open() (root ignores permission bits); crash between truncate and write is model-only; in-process runs.',
         technique='TLA+ (TLC) model checking with fault enumeration + trace validation of recorded CLI runs',
         design_ref='3.7, 5 (C15)'),
     'C16': dict(
         specs='EncodingS.tla, Encoding.tla, Trace_Encoding.tla',
-        text='All 1 572 in-language configurations (text/bytes x BOM x ten coding cookies incl. spellings the tokenizer normalises x LF/CRLF/CR x eleven first-line shapes x preserve) are '
+        text='All 1 728 in-language configurations (text/bytes x BOM x ten coding cookies incl. spellings the tokenizer normalises x LF/CRLF/CR x twelve first-line shapes x preserve) are '
              'enumerated by TLC; the shebang capture model is checked against the expectation exhaustively; every configuration x body program '
              'is run through the real minify() on 3 (quick) / 9 (thorough) interpreters and the real CLI, and TLC judges strict tree identity, '
              'first-line rule, bytes/text agreement and CLI bytes. The result is compared as the UTF-8 bytes the interpreter would read; the non-ASCII #! line uses characters '
-             'that distinguish the sibling codecs.',
+             'that distinguish the sibling codecs, and one kind whose bytes in the declared codec are also well-formed UTF-8 for other text.',
         note='Codecs, BOM/cookie detection and newline normalisation are CPython\'s; tree identity is computed by the interpreter under test; '
              'BOM+shebang unconstrained; one known finding (D23: a #! line carrying a coding declaration).',
         technique='TLA+ (TLC) enumeration of the encoding configuration space + trace validation of observed minify()/CLI results',
@@ -73,7 +76,7 @@ CHECKS = {
              'extend those lists; TLC checks ArgsUntouched and ResultIsFresh over every plan and interleaving in bounds (1x3, 2x1; thorough 2x2) '
              'and generates (plan, schedule) histories that are replayed in the real code with threads forced through the schedule at stage '
              'boundaries; every result is compared with a fresh process. Plus forward and reverse single-process histories (real modules, the shape bank, and a family with one module per builtin exception and per '
-             'Suite.tla statement symbol) against one-call processes on 3.12, 3.11 and 2.7, 4 (quick) / 32 (thorough) hash seeds and free-running threads, all judged by TLC.',
+             'Suite.tla statement symbol, 18 syntactic lists of 2 / 4 / 6 equally weighted names, the enumerated programs with a combined global declaration) against one-call processes on 3.12, 3.11 and 2.7, 4 (quick) / 32 (thorough) hash seeds and free-running threads, all judged by TLC.',
         note='Forced interleavings are at seam (stage-boundary) grain; fresh reference = same tree, one call per process; option sets fixed to '
              'rename_globals=True for histories.',
         technique='TLA+ (TLC) model checking of call histories/interleavings + replay of TLC-generated behaviours into the implementation',
@@ -83,7 +86,8 @@ CHECKS = {
         text='Composition/gating of the stages checked by TLC; ObsStable judged by TLC on runs of runnable programs: the source, the tree after every stage of minify() '
              '(outside seams, compiled as an AST without any printer) and the printed result must give the same output, exception type and public namespace. '
              'Programs: the enumerated scope programs (two statement orders), suite cases and hoist placements of the other specifications concretised runnable, '
-             'the arithmetic cells of Fold.tla (120 to a module, seeded order) and 12 hand-written seed scripts; options: defaults and seeded subsets of the documented-safe options (seeds: 12 / 200 subsets).',
+             'the arithmetic cells of Fold.tla (120 to a module, seeded order) and 12 hand-written seed scripts; scope programs also with adversarial names and with their stores in other '
+             'spellings one suite down; options: defaults and seeded subsets of the documented-safe options (seeds: 12 / 200 subsets).',
         note='Observation excludes documented reflective views (renamed names, annotations, line numbers, parameter names of functions). Runs on CPython 3.12; known '
              'findings D18 (PEP 709) and D20 (promoted docstring) are matched by shape.',
         technique='TLA+ (TLC) model of the pipeline + trace validation of per-stage behaviour observations of TLC-enumerated programs',
@@ -93,7 +97,7 @@ CHECKS = {
         text='S = the grammar\'s levels per expression kind and per expression-valued slot (121 slots x 64 kinds), validated cell by cell against '
              'CPython\'s parser; M = the printer\'s parenthesisation rules transcribed from the code; TLC checks M faithful under S for all 7 156 cells. '
              'Every cell (parenthesised and, where S allows, bare), depth-2 chains (quick: 12 000 sampled; thorough: all ~220 000), literal boundary '
-             'values in operator contexts and whole modules are round-tripped through the real printer on nine interpreters, strict identity '
+             'values in operator contexts, f-strings with `text=` in front of a replacement field (debug-specifier abbreviation; 2 958 text x value x conversion combinations) and whole modules are round-tripped through the real printer on nine interpreters, strict identity '
              'computed by the interpreter, verdict by TLC; minify() with all transforms off must return a strictly identical tree. '
              'Spacing: TokensS.tla states when two neighbouring tokens join (validated against the tokenizers / parsers of five interpreters for all 10 404 pairs of a '
              'token bank), Tokens.tla checks the TokenPrinter\'s blank rule against it, and Trace_Tokens.tla judges every distinct (previous token, separator, token) '
@@ -120,7 +124,9 @@ CHECKS = {
              'walrus); M = the mapper, binder, resolver, pin rules and name assigner with any processing order and rename/decline choice. TLC '
              'checks that every renamed program keeps the binding partition, home scopes, class fallbacks and compilability (all option combinations; '
              'thorough adds two names). Every enumerated program (quick ~15 600 + 4 500 four-deep chains of scopes, thorough ~300 000 + all 70 112 chains) is concretised with unique tags, minified by the real '
-             'code under three option sets, the spelling of every occurrence is read back (a share also with adversarial names, heavier mention counts and stores spelled as annotated assignment / for / with / tuple / import), TLC re-evaluates the rules of Python on input and output, and '
+             'code under three option sets, the spelling of every occurrence is read back (a share also with adversarial names, heavier mention counts, stores spelled as annotated assignment / for / with / tuple / import - also one suite down - and mentions that '
+             'bind nothing or are evaluated elsewhere: value-less module-level annotations, del of a declared global, reads in *args / **kwargs annotations; the programs that exist on '
+             'Python 2 are also minified under 2.7), TLC re-evaluates the rules of Python on input and output, and '
              'the compiler and a run of both programs are cross-checked.',
         note='Bounds: module + 2 scopes (3 thorough; chains of 3 with one name) and 1-2 names; known finding D18 (PEP 709) judged under both rule sets; helper names of generated programs are preserved; dynamic run on CPython 3.12 only.',
         technique='TLA+ (TLC) model checking of the renamer against the scoping rules of Python + replay of every enumerated program into the real renamer',
@@ -128,7 +134,7 @@ CHECKS = {
     'C04': dict(
         specs='PyScope.tla, Rename.tla, Trace_Rename.tla, Trace_Interface.tla',
         text='InterfaceKept checked by TLC on the renamer model for all programs and option combinations in bounds; the real renamer is replayed on every '
-             'enumerated program under all four (rename_locals, rename_globals) pairs, a share with other store spellings incl. annotated assignments with every annotation removal on (class attributes, keyword-callable parameters, never-bound names, '
+             'enumerated program under all four (rename_locals, rename_globals) pairs, a share with other store spellings incl. annotated assignments with every annotation removal on and the decorations of C03, plus a replay under Python 2.7 (class attributes, keyword-callable parameters, never-bound names, '
              'module-level names); real modules are projected to interface categories (attribute, keyword, import, class-body, parameter, dunder, unbound, '
              'module-level names) before/after under renaming+hoisting and judged by TLC as (multi)set equalities.',
         note='Documented freedom excluded: first parameter of undecorated/classmethod methods, *args/**kwargs, positional-only. Static projection runs under '
@@ -139,7 +145,7 @@ CHECKS = {
         specs='Rename.tla, Pipeline.tla, PipelineS.tla, Trace_Rename.tla, Trace_Taint.tla',
         text='Frozen (renamer model) and the gating of name-introducing stages (pipeline model) checked by TLC; the real code is run on every enumerated '
              'scope program with a module-level trigger, on enumerated programs and four-deep scope chains whose own name is spelled eval / exec / locals / globals / vars (tainted iff '
-             'PyScope.tla resolves a read of it to the builtin) with a renamable name in every function, and on 7 triggers + 4 look-alikes x 15 syntactic positions x naming-option combinations x preserve lists, star '
+             'PyScope.tla resolves a read of it to the builtin) with a renamable name in every function (also in other store spellings and with a value-less module-level annotation of the name), and on 7 triggers + 4 look-alikes x 15 syntactic positions x naming-option combinations x preserve lists, star '
              'imports and the 2.7 exec statement: identifier multiset, stage events and naming flags (outside seams), and a run that enumerates namespaces '
              'and looks names up by string, all judged by TLC.',
         note='Look-alikes are unconstrained; identifier multiset covers names, args, def/class names, global/nonlocal, import and except names.',
@@ -148,7 +154,7 @@ CHECKS = {
     'C10': dict(
         specs='Rename.tla, Trace_Rename.tla, Trace_Preserve.tla',
         text='Preserved checked by TLC on the renamer model under every option combination; the real renamer is replayed on every enumerated program with '
-             'the name listed for locals / globals / both; a generated module is minified under 5 __all__ forms x option pairs x local and global name lists '
+             'the name listed for locals / globals / both; a generated module is minified under 5 __all__ forms x option pairs x local and global name lists x {other transforms at their defaults, all other transforms off} '
              '(locally bound, global, parameter, builtin, absent) given as list or single string, and through awslambda(): occurrence counts of each listed '
              'name, identity of shape with the un-preserved output, and a run of both programs, judged by TLC.',
         note='Tuples are outside the documented argument type. CLI list spellings are judged in C13.',
@@ -156,9 +162,9 @@ CHECKS = {
         design_ref='3.2, 5 (C10)'),
     'C05': dict(
         specs='SuiteS.tla, Suite.tla, Trace_Suite.tla, Trace_SuiteCorpus.tla',
-        text='S = one rewrite step per documented option with its side condition over a 41-symbol statement alphabet in 21 contexts (Allowed = closure, non-empty '
+        text='S = one rewrite step per documented option with its side condition over a 43-symbol statement alphabet in 24 contexts (Allowed = closure, non-empty '
              'rule); M = the nine transformers as written, in pipeline order. TLC checks MOut in Allowed, off-means-untouched, non-emptiness and import order '
-             'for all blocks <= 2 (quick) / <= 3 (thorough) x relevant option subsets. Every enumerated case (quick ~28 000, thorough ~265 000; "uses __doc__" in five spellings) is concretised, '
+             'for all blocks <= 2 (quick) / <= 3 (thorough) x relevant option subsets. Every enumerated case (quick ~16 000, thorough ~320 000; "uses __doc__" in five spellings; docstrings of functions and classes and the module-level zq are part of the observation) is concretised, '
              'minified by the real code with exactly those options, the output suite is classified back into the alphabet and TLC checks membership in '
              'Allowed plus equality of runs under optimize 0 and 1. Real modules: an eraser of the documented rewrites (harness/suitecanon.py), tied to S by checking it '
              'against Allowed() on every exported case, is applied to input and output of the pinned corpus under 15 option sets; Trace_SuiteCorpus.tla gives the verdicts.',
@@ -167,11 +173,12 @@ CHECKS = {
         design_ref='3.3, 5 (C05)'),
     'C06': dict(
         specs='HoistS.tla, Hoist.tla, Trace_Hoist.tla',
-        text='S = evaluation-scope and visibility rules for 21 places of a fixed skeleton (class bodies, defaults, decorators, comprehension, lambda, f-string value and '
+        text='S = evaluation-scope and visibility rules for 22 places of a fixed skeleton (class bodies, defaults, decorators, comprehension, lambda, f-string value and '
              'text, match pattern, __slots__, literal statement, docstring position) plus the exclusions the property lists; M = the hoister\'s use collection and '
              'deepest-common-function-namespace placement. TLC checks M |= S for every set of <= 4 (quick) / 5 (thorough) places x 4 literal kinds. Every case '
              '(x 3 option sets; True also spelled as an expression that folding turns into it) is concretised and minified by the real code; TLC judges which places were replaced, the scope / count / position / '
-             'value of every alias assignment, docstring and __future__ positions, compilation and a run of both programs.',
+             'value of every alias assignment, docstring and __future__ positions, compilation and a run of both programs. A typed-literal family (two spellings of equal text and '
+             'another type, e.g. \'x\' / u\'x\' on 2.7) is minified and run under 2.7 and 3.x and judged by Trace_Behave.tla.',
         note='Fixed skeleton (one program shape, all placements); alias assignments recognised structurally; known finding D18 (PEP 709) matched by its version '
              'signature (correct on 3.11, NameError on 3.12).',
         technique='TLA+ (TLC) check of hoist placement against scoping rules + replay of every enumerated placement into the real minifier',
@@ -181,7 +188,7 @@ CHECKS = {
         text='Decision structure of the folder (M) against the numeric tower and the property\'s rule (S: result type or exception per operator x '
              'operand-class cell; raising/NaN/not-shorter kept; bool as name constant; negative as unary minus) checked by TLC over 13 x 17 x 17 cells x '
              'environment facts; every cell is instantiated with concrete boundary literals in up to 15 syntactic contexts plus seeded nested '
-             'expressions and folded by the real code on 3 (quick) / 9 (thorough) interpreters; the interpreter evaluates input and output and TLC '
+             'expressions - and, under the default options, in 7 whole-module contexts where the expression occurs three times in defaults / decorators / lambdas / class bodies (folding x hoisting) - and folded by the real code on 3 (quick) / 9 (thorough) interpreters; the interpreter evaluates input and output and TLC '
              'judges identity of type, value, sign bit and exception, the size rule, and that S\'s type table matches the interpreter.',
         note='Values are sampled per class (TLC does no arithmetic); identity is the interpreter\'s verdict; resource-heavy shifts/powers excluded.',
         technique='TLA+ (TLC) check of folding decisions per operator/operand-class cell + replay of every cell into the real folder',
